@@ -52,6 +52,7 @@ func TestC20_Engine(t *testing.T) {
 		cmds, cls := gen.DB(t, gen.CmdOpts{Platforms: true, Unicode: rapid.IntRange(0, 2).Draw(t, "u") == 0}, []int{0, 1, 3, 10, 1})
 		db := gen.Load(t, cmds)
 		q, qc := gen.Query(t, cmds, []gen.QueryClass{"vocab", "vocab", "nlp", "nlp", "typo", "typo", "typo", "typo", "fragment", "fragment", "one", "mixed", "unicode", "long"})
+		warmUp(t, db, cmds)
 		if rapid.IntRange(0, 7).Draw(t, "hostile-k") == 0 {
 			q += " kill Kelvin ok"
 		}
